@@ -641,6 +641,24 @@ func e2eC15(repo, dir string, vals map[string]string) ([]string, error) {
 			os.RemoveAll(filepath.Join(e.dir, "cg"))
 		}
 	}
+	bad = append(bad, e2eExtendOrder(e)...)
+	// output directories whose names start alike (out, out-v2, out.v3; nested conv / conv-legacy/x): every one is created
+	{
+		src := "package sibd\n\n"
+		for i, d := range []string{"out", "out-v2", "out.v3", "api/conv", "api/conv-legacy/x"} {
+			src += fmt.Sprintf("// goverter:converter\n// goverter:output:file ../sibout/%s/gen.go\ntype C%d interface {\n\tConvert(source In) Out\n}\n\n", d, i)
+		}
+		e.write("sibd/in.go", src+"type In struct{ A int }\ntype Out struct{ A int }\n")
+		code, _, se = e.run("gen", "./sibd")
+		for _, d := range []string{"out", "out-v2", "out.v3", "api/conv", "api/conv-legacy/x"} {
+			if _, err := os.Stat(filepath.Join(e.dir, "sibout", d, "gen.go")); code != 0 || err != nil {
+				bad = append(bad, "output directories with a common name prefix: sibout/"+d+"/gen.go is not written: "+firstLine(se))
+				break
+			}
+		}
+		os.RemoveAll(filepath.Join(e.dir, "sibd"))
+		os.RemoveAll(filepath.Join(e.dir, "sibout"))
+	}
 	// modes of new files and directories do not depend on a permissive umask: 0644 and 0755 are what is asked for
 	for _, um := range []string{"000", "002"} {
 		os.RemoveAll(filepath.Join(e.dir, "um"))
@@ -794,6 +812,42 @@ func e2eTwoVariableBlocks(e *e2eEnv) []string {
 	return bad
 }
 
+// e2eExtendOrder: extend lines are resolved after all lines of the converter were read - against the final output
+// package - while the converter's methods inherit the settings as they are at the end of the comment.
+func e2eExtendOrder(e *e2eEnv) []string {
+	var bad []string
+	e.write("eo/in.go", "package eo\n\n// goverter:converter\n// goverter:extend Itoa\n// goverter:arg:context:regex ^ctx\ntype C interface {\n\tConvert(ctxLang Lang, source In) Out\n}\ntype Lang string\ntype In struct{ A int }\ntype Out struct{ A string }\n\nfunc Itoa(i int) string { return \"\" }\n")
+	if code, _, se := e.run("gen", "./eo"); code != 0 {
+		bad = append(bad, "arg:context:regex written below an extend line is not inherited by the converter's methods: "+firstLine(se))
+	}
+	e.write("eo/in.go", "package eo\n\n// goverter:converter\n// goverter:arg:context:regex ^old\n// goverter:extend Itoa\n// goverter:arg:context:regex ^ctx\ntype C interface {\n\tConvert(oldName string, ctxPrefix string) Label\n}\ntype Label string\n\nfunc Itoa(i int) string { return \"\" }\n")
+	code, _, _ := e.run("gen", "./eo")
+	b, _ := os.ReadFile(filepath.Join(e.dir, "eo/generated/generated.go"))
+	if code == 0 && !strings.Contains(string(b), "Convert(source string, context string)") {
+		bad = append(bad, "two arg:context:regex lines around an extend line: the methods do not use the last one")
+	}
+	os.RemoveAll(filepath.Join(e.dir, "eo"))
+	// an unexported function of the declaring package while a later line moves the output elsewhere
+	e.write("eo2/in.go", "package eo2\n\n// goverter:variables\n// goverter:extend itoa\n// goverter:output:file ../eo2out/x.go\nvar (\n\tConvert func(source In) Out\n)\ntype In struct{ A int }\ntype Out struct{ A string }\n\nfunc itoa(i int) string { return \"\" }\n")
+	if code, _, _ := e.run("gen", "./eo2"); code != 1 {
+		if out, err := e.goBuild("./eo2out/..."); err != nil {
+			bad = append(bad, "unexported extend function of the declaring package accepted although output:file (below the extend line) moves the output elsewhere: "+firstLine(out))
+		}
+	}
+	os.RemoveAll(filepath.Join(e.dir, "eo2"))
+	os.RemoveAll(filepath.Join(e.dir, "eo2out"))
+	return bad
+}
+
+// e2eC14: roles of parameters as the real binary sees them.
+func e2eC14(repo, dir string, vals map[string]string) ([]string, error) {
+	e, err := newE2E(repo, dir)
+	if err != nil {
+		return nil, err
+	}
+	return e2eExtendOrder(e), nil
+}
+
 // e2eC01: programs whose output spans several files of one package compile: helper names are unique per output
 // package whichever source package, file or format the converters come from.
 func e2eC01(repo, dir string, vals map[string]string) ([]string, error) {
@@ -811,6 +865,26 @@ func e2eC01(repo, dir string, vals map[string]string) ([]string, error) {
 		bad = append(bad, "two function-format converters of two source packages writing two files of one output package: run fails: "+firstLine(se))
 	} else if out, err := e.goBuild("./shared/..."); err != nil {
 		bad = append(bad, "two function-format converters of two source packages writing two files of one output package: the package does not compile: "+firstLine(out))
+	}
+	// two converters that declare one package level name in one output package: a diagnostic, not a package that
+	// does not compile
+	e.write("dup/in.go", "package dup\n\n// goverter:converter\n// goverter:output:format function\ntype A interface {\n\tConvert(source In) Out\n}\n\n// goverter:converter\n// goverter:output:format function\ntype B interface {\n\tConvert(source Out) In\n}\ntype In struct{ N int }\ntype Out struct{ N int }\n")
+	if code, _, se := e.run("gen", "./dup"); code != 1 || strings.TrimSpace(se) == "" {
+		if out, err := e.goBuild("./dup/..."); err != nil {
+			bad = append(bad, "two function-format converters declaring Convert in one output package: accepted, the package does not compile: "+firstLine(out))
+		}
+	}
+	e.write("dup3/in.go", "package dup3\n\n// goverter:converter\n// goverter:name Convert\ntype A interface {\n\tToOut(source In) Out\n}\n\n// goverter:converter\n// goverter:output:format function\ntype B interface {\n\tConvert(source Out) In\n}\ntype In struct{ N int }\ntype Out struct{ N int }\n")
+	if code, _, se := e.run("gen", "./dup3"); code != 1 || strings.TrimSpace(se) == "" {
+		if out, err := e.goBuild("./dup3/..."); err != nil {
+			bad = append(bad, "a struct-format converter named Convert and a function-format converter declaring Convert in one output package: accepted, the package does not compile: "+firstLine(out))
+		}
+	}
+	e.write("dup2/in.go", "package dup2\n\n// goverter:converter\n// goverter:name Same\ntype A interface {\n\tConvert(source In) Out\n}\n\n// goverter:converter\n// goverter:name Same\ntype B interface {\n\tConvert(source Out) In\n}\ntype In struct{ N int }\ntype Out struct{ N int }\n")
+	if code, _, se := e.run("gen", "./dup2"); code != 1 || strings.TrimSpace(se) == "" {
+		if out, err := e.goBuild("./dup2/..."); err != nil {
+			bad = append(bad, "two converters named Same in one output package: accepted, the package does not compile: "+firstLine(out))
+		}
 	}
 	return bad, nil
 }
@@ -846,6 +920,26 @@ func e2eC09(repo, dir string, vals map[string]string) ([]string, error) {
 			break
 		}
 	}
+	// a history that leaves another package clause in the (constrained, hence invisible) previous output: the
+	// clause of the regenerated file is that of a clean generation
+	hist := func(pkgLine string) string {
+		return "package hp\n\n// goverter:converter\n" + pkgLine + "type C interface {\n\tConvert(source In) Out\n}\ntype In struct{ A int }\ntype Out struct{ A int }\n"
+	}
+	e.write("hp/in.go", hist("// goverter:output:package e2e/hp/generated:conv\n"))
+	e.run("gen", "./hp")
+	e.write("hp/in.go", hist(""))
+	e.run("gen", "./hp")
+	afterHistory, _ := os.ReadFile(filepath.Join(e.dir, "hp/generated/generated.go"))
+	e.write("hp/generated/generated.go", "// Code generated by github.com/jmattheis/goverter, DO NOT EDIT.\n//go:build !goverter\n\npackage leftover\n\nfunc broken( {\n")
+	e.run("gen", "./hp")
+	afterBroken, _ := os.ReadFile(filepath.Join(e.dir, "hp/generated/generated.go"))
+	os.RemoveAll(filepath.Join(e.dir, "hp/generated"))
+	e.run("gen", "./hp")
+	cleanHP, _ := os.ReadFile(filepath.Join(e.dir, "hp/generated/generated.go"))
+	if string(afterHistory) != string(cleanHP) || string(afterBroken) != string(cleanHP) {
+		bad = append(bad, "regenerating over a previous output with another package clause (an earlier output:package name / a broken file) differs from a clean generation")
+	}
+	os.RemoveAll(filepath.Join(e.dir, "hp"))
 	// ... also when the previous output is visible to the loader (no output constraint; function and variables
 	// formats, whose helpers are package level names of the output package)
 	e.write("hn/in.go", "package hn\n\n// goverter:converter\n// goverter:output:format function\n// goverter:output:file ./hn.gen.go\n// goverter:output:package e2e/hn\ntype C interface {\n\tConvert(source Outer) OuterT\n}\n\n// goverter:variables\n// goverter:output:file ./hnv.gen.go\nvar (\n\tConvV func(source []Outer) []OuterT\n)\n\ntype Inner struct{ A int }\ntype InnerT struct{ A int }\ntype Outer struct {\n\tIn Inner\n\tL []Inner\n}\ntype OuterT struct {\n\tIn InnerT\n\tL []InnerT\n}\n")
@@ -1185,6 +1279,24 @@ func e2eC19(repo, dir string, vals map[string]string) ([]string, error) {
 	if code, _, se := e.run("gen", "./long"); code != 0 {
 		bad = append(bad, "a setting line after a comment line of 70000 bytes is lost: "+firstLine(se))
 	}
+	bad = append(bad, e2eExtendOrder(e)...)
+	// the shorthand update:ignoreZeroValueField and its per-category lines apply in source order
+	zo := func(first, second string) string {
+		return "package zo\n\n// goverter:converter\ntype C interface {\n\t// goverter:update target\n\t// goverter:" + first + "\n\t// goverter:" + second + "\n\tUpdate(source In, target *Out)\n}\ntype In struct {\n\tName string\n\tL []int\n}\ntype Out struct {\n\tName string\n\tL []int\n}\n"
+	}
+	e.write("zo/in.go", zo("update:ignoreZeroValueField:basic no", "update:ignoreZeroValueField"))
+	code, _, se = e.run("gen", "./zo")
+	zb, _ := os.ReadFile(filepath.Join(e.dir, "zo/generated/generated.go"))
+	if code != 0 || !strings.Contains(string(zb), "source.Name != \"\"") {
+		bad = append(bad, "update:ignoreZeroValueField written below :basic no does not switch the basic category on again: "+firstLine(se))
+	}
+	e.write("zo/in.go", zo("update:ignoreZeroValueField", "update:ignoreZeroValueField:basic no"))
+	code, _, se = e.run("gen", "./zo")
+	zb, _ = os.ReadFile(filepath.Join(e.dir, "zo/generated/generated.go"))
+	if code != 0 || strings.Contains(string(zb), "source.Name != \"\"") || !strings.Contains(string(zb), "source.L != nil") {
+		bad = append(bad, ":basic no written below update:ignoreZeroValueField does not switch only the basic category off: "+firstLine(se))
+	}
+	os.RemoveAll(filepath.Join(e.dir, "zo"))
 	// an extend line is resolved with the settings above it, not with those below it
 	e.write("so/in.go", "package so\n\n// goverter:converter\n// goverter:extend Conv.*\n// goverter:arg:context:regex ^ctx\ntype C interface {\n\tConvert(source In) Out\n}\n\nfunc ConvTemp(v int, ctxUnit string) Celsius { return Celsius(v + 1000) }\n\ntype Celsius int\ntype In struct{ Temp int }\ntype Out struct{ Temp Celsius }\n")
 	code, _, se = e.run("gen", "./so")
@@ -1298,6 +1410,20 @@ func e2eC12(repo, dir string, vals map[string]string) ([]string, error) {
 		bad = append(bad, "an extend line that cannot be resolved is not reported where it was written (-g: "+firstLine(seG)+" | doc comment: "+firstLine(seD)+")")
 	}
 	os.RemoveAll(filepath.Join(e.dir, "loc"))
+	// a function named on a method is classified with the arg:context:regex above its line, not with one below it
+	mo := func(first, second string) string {
+		return "package mo\n\n// goverter:converter\ntype C interface {\n\t// goverter:" + first + "\n\t// goverter:" + second + "\n\tConvert(source In, ctxL Loc) Out\n}\ntype Loc struct{ Lang string }\ntype In struct{ ID int }\ntype Out struct{ Full string }\n\nfunc Lookup(id int, ctxL Loc) string { return \"\" }\n"
+	}
+	e.write("mo/in.go", mo("arg:context:regex ^ctx", "map ID Full | Lookup"))
+	if code, _, se := e.run("gen", "./mo"); code != 0 {
+		bad = append(bad, "method-level arg:context:regex above map|FUNC is not used for the function: "+firstLine(se))
+	}
+	e.write("mo/in.go", mo("map ID Full | Lookup", "arg:context:regex ^ctx"))
+	if code, _, _ := e.run("gen", "./mo"); code != 1 {
+		bad = append(bad, "method-level arg:context:regex below a map|FUNC line changes how that function is classified")
+	}
+	os.RemoveAll(filepath.Join(e.dir, "mo"))
+	bad = append(bad, e2eExtendOrder(e)...)
 	// a long doc comment keeps its line order: of two lines for one setting the lower one wins, whatever the
 	// number of other lines around them (method and converter level)
 	{
@@ -1356,6 +1482,7 @@ func e2eC13(repo, dir string, vals map[string]string) ([]string, error) {
 
 var e2eScenarios = map[string]func(repo, dir string, vals map[string]string) ([]string, error){
 	"c13": e2eC13,
+	"c14": e2eC14,
 	"c01": e2eC01,
 	"c12": e2eC12,
 	"c06": e2eC06,
